@@ -218,8 +218,9 @@ func readLocal(iface distsys.ArchetypeInterface, name string) (v tla.Value, pres
 	return iface.ReadArchetypeResourceLocal(name), true
 }
 
-// valstr prints a value in TLA+ syntax; a reference (the name of a resource "&Arch.x") is
-// printed as the PlusCal-level name "x".
+// valstr prints a value in TLA+ syntax; a reference (the name of a resource "&Arch.x", or the
+// name of a procedure variable "Lend.da" of the Procs family) is printed as the PlusCal-level
+// name "x" / "da".
 func valstr(v tla.Value, refPrefix string) (s string) {
 	defer func() {
 		if r := recover(); r != nil {
@@ -228,6 +229,9 @@ func valstr(v tla.Value, refPrefix string) (s string) {
 	}()
 	if v.IsString() && strings.HasPrefix(v.AsString(), refPrefix) {
 		return strconv.Quote(v.AsString()[len(refPrefix):])
+	}
+	if v.IsString() && refPrefix == "&Main." && procVarSet[v.AsString()] {
+		return strconv.Quote(short(v.AsString()))
 	}
 	return v.String()
 }
@@ -311,10 +315,20 @@ func guarded(rs *runState, f func() error) (status, msg string) {
 
 var procVarNames = func() []string {
 	var names []string
-	for _, p := range []string{"Fact", "Even", "Odd", "Sum", "Outer", "A", "B", "N1", "N2", "N3", "N4", "Inc", "Both", "Both2", "Node"} {
+	for _, p := range []string{"Fact", "Even", "Odd", "Sum", "Outer", "A", "B", "N1", "N2", "N3", "N4", "Inc", "Both", "Both2", "Node", "Lend", "Borrow"} {
 		names = append(names, procsProcTable[p].StateVars...)
 	}
 	return names
+}()
+
+// names of the procedure variables of the Procs family (a string value equal to one of them is a
+// reference to that variable)
+var procVarSet = func() map[string]bool {
+	m := map[string]bool{}
+	for _, n := range procVarNames {
+		m[n] = true
+	}
+	return m
 }()
 
 func runProcs(fam *family, prog string, arg int32, mode string, rep int, seed int64) {
@@ -430,7 +444,7 @@ func main() {
 		arg  int32
 	}
 	var inputs []inp
-	for _, prog := range []string{"fact", "evenodd", "sum", "tail", "nest", "ref"} {
+	for _, prog := range []string{"fact", "evenodd", "sum", "tail", "nest", "ref", "lend", "lendt"} {
 		for _, a := range fam.Ints[prog] {
 			inputs = append(inputs, inp{prog, a})
 		}
